@@ -137,6 +137,9 @@ def add_tap(rnd, t):
 
 # Patterns written from reading the rule code: left-hand sides of every conditional rule,
 # instantiated over operand classes.  X,Y,Z are filled with sub-trees.
+SIGNED_B = [1 << 255, (1 << 255) + 1, (1 << 255) - 1, MASK, MASK - 1, 0, 1]
+
+
 def _P(rnd, nin):
     def L():
         r = rnd.random()
@@ -186,6 +189,11 @@ def _P(rnd, nin):
         sw("AND", X, op("OR", Y, Z)), sw("OR", X, op("AND", Y, Z)), sw("XOR", X, op("XOR", Y, Z)), sw("AND", X, op("NOT", Y)),
         sw("AND", op("SHL", X, Y), op("SHR", X, Z)), op("AND", op("SHL", X, Y), op("SHL", Z, Y)),
         op("BALANCE", ("env", rnd.choice(["CALLER", "ORIGIN"]))), sw("AND", ("env", "CALLVALUE"), c((1 << 160) - 1)),
+        # signed operations on the boundary of the two's complement range (INT_MIN = 2^255 and its neighbours)
+        op("SAR", c(rnd.choice([1, 4, 8, 255, 256, 257])), c(rnd.choice(SIGNED_B))),
+        op(rnd.choice(["SDIV", "SMOD", "SLT", "SGT"]), c(rnd.choice(SIGNED_B)), c(rnd.choice(SIGNED_B + [2, 3]))),
+        op("SIGNEXTEND", c(rnd.choice([0, 1, 30, 31, 32])), c(rnd.choice([0x7f, 0x80, 0xff, 0x7fff, 0x8000, 0xffff] + SIGNED_B))),
+        op(rnd.choice(["SHL", "SHR"]), c(rnd.choice([1, 255, 256])), c(rnd.choice(SIGNED_B))),
         # pure constant folding, boundary operands
         op(rnd.choice(BIN), c(rnd.choice(CONST_POOL)), c(rnd.choice(CONST_POOL))),
         op(rnd.choice(BIN), c(rand_const(rnd)), c(rand_const(rnd))),
@@ -654,6 +662,39 @@ def gen_wrap_block(rnd):
     return out
 
 
+def gen_tiny_block(rnd):
+    """two to four memory/storage accesses whose operands come straight from the initial stack, with at most a little
+    DUP/SWAP/POP glue: the specifications where every bound is tight and the dependency is the only constraint
+    (MSTORE MSTORE, SSTORE SLOAD, CALLVALUE SWAP1 MSTORE MSTORE ...)"""
+    out = []
+    h = 0                       # values produced so far (loads / hashes / pushes) on top of the inputs
+    for i in range(rnd.randrange(2, 5)):
+        r = rnd.random()
+        if r < 0.2 and i > 0:
+            out.append((rnd.choice(["SWAP1", "SWAP2", "DUP1", "DUP2", "CALLVALUE", "SWAP1"]), None))
+            if out[-1][0] in ("DUP1", "DUP2", "CALLVALUE"):
+                h += 1
+        k = rnd.random()
+        if k < 0.35:
+            out.append((rnd.choice(["MSTORE", "MSTORE", "MSTORE8"]), None))
+            h -= 2
+        elif k < 0.55:
+            out.append(("SSTORE", None))
+            h -= 2
+        elif k < 0.75:
+            out.append(("MLOAD", None))
+        elif k < 0.9:
+            out.append(("SLOAD", None))
+        else:
+            out.append(("KECCAK256", None))
+            h -= 1
+    if rnd.random() < 0.3:
+        out = [("SWAP1", None), ("SWAP1", None)] + out
+    if rnd.random() < 0.3:
+        out.append(("POP", None))
+    return out
+
+
 def gen_tradeoff_block(rnd):
     """Fragments with alternatives that trade one cost for another (gas / bytes / instruction count): a value that
     can be duplicated or produced again (2-gas environment reads, zero pushes, one-byte and wide constants), a
@@ -666,7 +707,8 @@ def gen_tradeoff_block(rnd):
         r = rnd.random()
         if r < 0.3:
             x = [(rnd.choice(["ADDRESS", "CALLVALUE", "CALLER", "ORIGIN", "CALLDATASIZE", "CODESIZE", "GASPRICE",
-                               "RETURNDATASIZE", "MSIZE" if False else "CHAINID"]), None)]
+                               "RETURNDATASIZE", "CHAINID", "SELFBALANCE", "SELFBALANCE", "BASEFEE", "COINBASE", "TIMESTAMP",
+                               "NUMBER", "GASLIMIT", "PREVRANDAO"]), None)]
         elif r < 0.55:
             x = [("PUSH", hexv(rnd.choice([0, 0, 1, 0x20, 0x40, 0xff])))]
         elif r < 0.75:
@@ -742,6 +784,8 @@ def gen_block(rnd, kind=None):
         return gen_identity_block(rnd), kind
     if kind == "wrap":
         return gen_wrap_block(rnd), kind
+    if kind == "tiny":
+        return gen_tiny_block(rnd), kind
     if kind == "dupterms":
         # the same term computed twice (operands in the other order for commutative operations, repeated loads /
         # hashes / environment reads), then combined or stored: exercises the unification of duplicated instructions
